@@ -34,6 +34,9 @@ type crashObs struct {
 
 func crashRun(c c03Cfg, threads [][]c03Event, o *crashObs, stop bool) {
 	x := zzvrt.Cur()
+	// only file creations may fail (a failed write/sync is an environment failure the property does
+	// not cover; a failed creation must leave the appender writing to the file it has)
+	x.FS.FaultOps = map[string]bool{"open": true}
 	zzvrt.Atomic(func() {
 		log.TimeNow = func(context.Context) time.Time { return fixedT }
 		x.FS.MkdirAll("/logs")
@@ -145,6 +148,19 @@ func init() {
 					b.Env[zzvrt.SeamCrash] = 1
 					return crashScenario(c03Cfg{layout: layout, sink: sink, threads: shapes[shape]}, b)
 				})
+				if sink == "rolling" && shape == "1x3" {
+					// the same with interval boundaries and failing file creations before the crash point
+					register("C20", fmt.Sprintf("c20/%s/%s/%s/boundaries+failed-creations", sink, layout, shape), "qt", func(tier string) *zzvrt.Scenario {
+						b := zzvrt.Bounds{Preempt: 1, Horizon: 5000}
+						b.Env[zzvrt.SeamCrash] = 1
+						b.Env[zzvrt.SeamTick] = 2
+						b.Env[zzvrt.SeamFault] = 1
+						if tier == "thorough" {
+							b.Env[zzvrt.SeamFault] = 2
+						}
+						return crashScenario(c03Cfg{layout: layout, sink: sink, threads: shapes[shape]}, b)
+					})
+				}
 			}
 		}
 	}
